@@ -69,7 +69,10 @@ NRANKS = 3
 MPI_INVARIANTS = ['TypeOK', 'InvNoShare', 'InvDemandMet', 'InvRefused', 'InvOccMatches', 'InvAllBack',
                   'InvResultOnce', 'InvAgg', 'InvTarget', 'InvEvt']
 MPI_DEVS = ['DevAggMin', 'DevAggSignedMax', 'DevAllocBusy', 'DevNoDealloc',
-            'DevNoDeallocOnSendFail', 'DevMissingIsDone']
+            'DevNoDeallocOnSendFail', 'DevMissingIsDone', 'Fine', 'DevCheckOutsideLock']
+# the allocator stepped operation by operation: A holds ranks, B needs more than are free
+MPI_FINE = ('fine', {'r1': (2, 'func', ['ok']), 'r2': (2, 'eval', ['ok', 'raise']),
+                     'r3': (3, 'func', ['ok'])})
 # (ranks, mode, possible rank outcomes)
 MPI_SCENARIOS = [
     ('three', {'r1': (2, 'func', ['ok', 'raise']), 'r2': (3, 'eval', ['ok', 'raise']),
@@ -152,7 +155,10 @@ def mpi_from_behaviour(path, scen):
     for name, args, _ in steps:
         ids = re.findall(r'"(\w+)"', args or '')
         if   name == 'Submit' : script.append(('submit', ids[0]))
-        elif name in ('MTake', 'MRetry'): script.append(('T',))
+        elif name in ('MTake', 'MRetry', 'FGet', 'FIsSet', 'FWait', 'FLock', 'FCount', 'FClear'):
+            script.append(('T',))
+        elif name == 'FCollect': script.append(('U', ids[0], int(re.findall(r',\s*(\d+)', args)[0])))
+        elif name in ('FULock', 'FUSet'): script.append(('U',))
         elif name == 'RankRun': script.append(('K', int(args.strip())))
         elif name == 'Collect': script.append(('U', ids[0], int(re.findall(r',\s*(\d+)', args)[0])))
         elif name == 'Result' : script.append(('result', ids[0]))
@@ -304,15 +310,17 @@ def catalogue():
     return out
 
 
+CLS_STUCK = 'task kept for a raptor master although a queue which could take it has registered'
 CLS_CACHE = 'cancel of tasks kept for a raptor master which has not registered yet'
-CACHE_INVARIANTS = ['TypeOK', 'InvNamedNeverRelayed', 'InvBystanderRelayedOnce']
-CACHE_DEVS  = ['DevSkipNeighbour', 'DevCancelKeepsCached']
+CACHE_INVARIANTS = ['TypeOK', 'InvNamedNeverRelayed', 'InvBystanderRelayedOnce', 'InvNoTaskStuck']
+CACHE_DEVS  = ['DevSkipNeighbour', 'DevCancelKeepsCached', 'DevStarOnlyIfNoOwn']
 M0, M1      = R.MASTER_UID, 'master.0001'
-CACHE_TASKS = {'t1': M0, 't2': M0, 't3': M0, 't4': M0, 't5': M1}
+CACHE_TASKS = {'t1': M0, 't2': M0, 't3': '*', 't4': '*', 't5': M1}
+STAR_TASKS  = {'t1': M0, 't2': '*', 't3': '*', 't4': M1}      # C05: smaller
 
 
 def cache_files(tasks, devs=(), maxc=1, invariants=None):
-    ids, ms_ = sorted(tasks), sorted(set(tasks.values()))
+    ids, ms_ = sorted(tasks), sorted(set(tasks.values()) - {'*'})
     mod = ('---- MODULE MCC ----\nEXTENDS RaptorCache\n'
            'MCTasks == {%s}\nMCMasters == {%s}\n'
            % (', '.join('"%s"' % t for t in ids), ', '.join('"%s"' % m for m in ms_))
@@ -364,7 +372,8 @@ def run_c08(chk, tier, seed):
             res = tlc.run('Raptor', 'MCC', 'MCC.cfg', workers=4, timeout=600,
                           extra_files=cache_files(CACHE_TASKS, devs=[dev]))
             chk.add_tlc(res, 'deviation:cache:' + dev)
-            if res.ok or res.violated not in ('InvNamedNeverRelayed', 'InvBystanderRelayedOnce'):
+            if res.ok or res.violated not in ('InvNamedNeverRelayed', 'InvBystanderRelayedOnce',
+                                              'InvNoTaskStuck'):
                 raise Machinery('deviation %s not detected by the cache model (got %s)'
                                 % (dev, res.violated))
             chk.notes.append('deviation %s breaks %s in the cache model' % (dev, res.violated))
@@ -392,15 +401,17 @@ def run_c08(chk, tier, seed):
     # every cancel request of 1 .. 3 uids over four kept tasks and one which is not
     # kept (it arrives later): adjacent, non-adjacent, all, none of the kept ones
     import itertools
-    tasks = {t: M0 for t in ('t1', 't2', 't3', 't4', 't5')}
-    info  = cache_info(tasks)
-    for bulk in (True, False):
-        for n in (1, 2, 3):
-            for S in itertools.combinations(sorted(tasks), n):
-                head = [('arrive', ['t1', 't2', 't3', 't4'])] if bulk else \
-                       [('arrive', [t]) for t in ('t1', 't2', 't3', 't4')]
-                add({'family': 'cache', 'kind': 'cache-script', 'info': info,
-                     'script': head + [('rcancel', list(S)), ('register', M0), ('arrive', ['t5'])]})
+    for rid, bulks in ((M0, (True, False)), ('*', (True,))):     # own backlog, "*" backlog
+        tasks = {t: rid for t in ('t1', 't2', 't3', 't4', 't5')}
+        info  = cache_info(tasks)
+        for bulk in bulks:
+            for n in (1, 2, 3):
+                for S in itertools.combinations(sorted(tasks), n):
+                    head = [('arrive', ['t1', 't2', 't3', 't4'])] if bulk else \
+                           [('arrive', [t]) for t in ('t1', 't2', 't3', 't4')]
+                    add({'family': 'cache', 'kind': 'cache-script', 'info': info,
+                         'script': head + [('rcancel', list(S)), ('register', M0),
+                                           ('arrive', ['t5'])]})
     # seeded random environments: cancel requests at any point of the scheduler loop
     for i in range(60 if quick else 1200):
         add({'family': 'cache', 'kind': 'sched-random', 'seed': rng.randrange(10 ** 9),
@@ -421,6 +432,7 @@ def classify(inp, clause):
     if clause == 'C20.RestoredProcEnv':
         return CLS_ENV
     fam = inp['family']
+    if clause == 'C05.RaptorTaskStuck': return CLS_STUCK
     if fam == 'cache' or clause.startswith('C08.'): return CLS_CACHE
     if fam == 'sched'  : return CLS_SCHED
     if fam == 'mpi'    : return CLS_MPI
@@ -437,7 +449,8 @@ def run_input(inp):
     if k == 'random':
         return R.RaptorRig(inp['reqs'], seed=inp['seed'], ncores=NCORES, ngpus=NGPUS).run()
     if k == 'mpi-script':
-        return R.MPIRig(inp['reqs'], script=[tuple(o) for o in inp['script']], nranks=NRANKS).run()
+        return R.MPIRig(inp['reqs'], script=[tuple(o) for o in inp['script']], nranks=NRANKS,
+                        fine=bool(inp.get('fine'))).run()
     if k == 'mpi-random':
         return R.MPIRig(inp['reqs'], seed=inp['seed'], nranks=NRANKS).run()
     if k == 'chain':
@@ -519,6 +532,29 @@ def explore_start(add, bound):
     return n[0]
 
 
+ALLOC_REQS = {'r1': R.mpi_req(2, 'func'), 'r2': R.mpi_req(2, 'eval')}
+# A is placed and has run on both its ranks, B is submitted: B's _alloc (puller)
+# races with A's completion (_dealloc in the pusher)
+ALLOC_HEAD = [('submit', 'r1'), ('T',), ('T',), ('T',), ('T',), ('K', 0), ('K', 1), ('submit', 'r2')]
+
+
+def explore_alloc(add, bound):
+    '''interleavings of the real _Resources._alloc (request B needs more ranks than
+       are free) with the real _dealloc of request A, step by step'''
+    n = [0]
+
+    def make_run(ch):
+        rig = R.MPIRig(ALLOC_REQS, script=list(ALLOC_HEAD), fine=True, chooser=ch, nranks=NRANKS)
+        tr  = rig.run()
+        return rig, (rig, tr)
+    for rig, tr in SC.explore(make_run, max_runs=5000, preempt_bound=bound):
+        n[0] += 1
+        add({'family': 'mpi', 'kind': 'mpi-script', 'scenario': 'explore-alloc', 'fine': True,
+             'reqs': ALLOC_REQS, 'script': list(ALLOC_HEAD) + [(c,) if c in 'TU' else ('K', int(c[1:]))
+                                                             for c in rig.taken]}, tr)
+    return n[0]
+
+
 def c05_inputs(rng):
     '''what a worker may send back x what the master makes of it; requests whose
        process cannot be started; MPI requests which cannot be placed'''
@@ -550,6 +586,28 @@ C05_RENAME = {'C20.TargetTruth': 'C05.RaptorTargetTruth',
               'C20.TargetFromExit': 'C05.RaptorTargetFromExit'}
 
 
+def star_inputs(rng, quick):
+    '''tasks bound to a master, tasks bound to "*" and the registrations of two
+       masters in every order (optionally a cancel request before the first
+       registration): whatever a registered queue could take must not stay behind'''
+    import itertools
+    tasks = {'a': M0, 'b': '*', 'c': '*', 'd': M1}
+    info  = cache_info(tasks)
+    evs   = [('arrive', ['a']), ('arrive', ['b', 'c']), ('arrive', ['d']),
+             ('register', M0), ('register', M1)]
+    out   = []
+    perms = list(itertools.permutations(evs))
+    if quick:
+        perms = rng.sample(perms, 50)
+    for i, perm in enumerate(perms):
+        script = list(perm)
+        if i % 3 == 2:      # a cancel request just before the first registration
+            k = min(j for j, a in enumerate(script) if a[0] == 'register')
+            script.insert(k, ('rcancel', [rng.choice(['a', 'b', 'c', 'd'])]))
+        out.append({'family': 'cache', 'kind': 'cache-script', 'info': info, 'script': script})
+    return out
+
+
 def run_c05(chk, tier, seed):
     '''the raptor share of C05 (the final state tells the truth): the target state
        the master derives for a request, against what the workers reported and
@@ -569,14 +627,50 @@ def run_c05(chk, tier, seed):
                'reqs': random_mpi(rng, False)}
         traces.append(run_input(inp))
         inputs.append(inp)
+    # no task stays behind in the scheduler's raptor cache (RaptorCache model)
+    quick = tier == 'quick'
+    res = tlc.run('Raptor', 'MCC', 'MCC.cfg', workers=4, timeout=600,
+                  extra_files=cache_files(STAR_TASKS if quick else CACHE_TASKS))
+    chk.add_tlc(res, 'exhaustive:cache')
+    if not res.ok:
+        raise Machinery('design model RaptorCache violates %s (intended design must hold):\n%s'
+                        % (res.violated, res.trace[:3000]))
+    if not quick:
+        res = tlc.run('Raptor', 'MCC', 'MCC.cfg', workers=4, timeout=600,
+                      extra_files=cache_files(CACHE_TASKS, devs=['DevStarOnlyIfNoOwn']))
+        chk.add_tlc(res, 'deviation:cache:DevStarOnlyIfNoOwn')
+        if res.ok:
+            raise Machinery('deviation DevStarOnlyIfNoOwn not detected by the cache model')
+        dump = tlc.scratch('rpsim_')
+        try:
+            res = tlc.run('Raptor', 'MCC', 'MCC.cfg', workers=1, timeout=300,
+                          simulate='num=300', depth=12, seed=rng.randrange(10 ** 6), dump_dir=dump,
+                          extra_files=cache_files(CACHE_TASKS, maxc=2, invariants=['TypeOK']))
+            chk.add_tlc(res, 'simulate:cache')
+            for f in sorted(glob.glob(os.path.join(dump, 'tr_*'))):
+                inp = {'family': 'cache', 'kind': 'cache-script', 'info': cache_info(CACHE_TASKS),
+                       'script': cache_script_from_behaviour(f)}
+                traces.append(run_input(inp))
+                inputs.append(inp)
+        finally:
+            shutil.rmtree(dump, ignore_errors=True)
+    for inp in star_inputs(rng, quick):
+        traces.append(run_input(inp))
+        inputs.append(inp)
+    for i in range(20 if quick else 600):
+        inp = {'family': 'cache', 'kind': 'sched-random', 'seed': rng.randrange(10 ** 9),
+               'info': random_sched(rng), 'p_env': rng.choice([0.2, 0.35, 0.5]), 'max_cancel': 1}
+        traces.append(run_input(inp))
+        inputs.append(inp)
     validate(chk, traces, inputs, 'real raptor trace', rename=C05_RENAME)
     chk.sample({'kind': 'inject matrix', 'events': [
         {k: v for k, v in e.items() if k not in ('cores', 'gpus', 'npool')}
         for e in traces[0]['events'] if e['ev'] in ('Inject', 'MResult')][:12]})
     chk.assumptions += [
         'only the raptor share of C05 is judged here: Master._result_cb deriving the target '
-        'state of a request from what the (default / MPI) worker sent back; the design model is '
-        'checked under C20 (InvTarget, InvTruth of Raptor / RaptorMPI)']
+        'state of a request from what the (default / MPI) worker sent back (the design model is '
+        'checked under C20: InvTarget, InvTruth of Raptor / RaptorMPI), and the scheduler not '
+        'leaving a task in its raptor cache which a registered queue could take (RaptorCache)']
 
 
 def run(chk, tier, seed):
@@ -588,17 +682,24 @@ def run(chk, tier, seed):
     quick = tier == 'quick'
 
     # ---- 1. design models, exhaustive -----------------------------------------------
-    # quick: the same scenarios with one racing dispatch pair / fewer rank outcomes
+    # quick: one scenario - one racing dispatch pair, a silent death, a start failure
     light = dict(SCENARIOS[0][1])
+    light['r2'] = Q(2, 0, 'eval', 'die', sf=1)
     light['r4'] = dict(light['r4'], tmo=False)
-    for name, reqs in ([('mixed-light', light), SCENARIOS[2]] if quick else SCENARIOS):
+    for name, reqs in ([('mixed-light', light)] if quick else SCENARIOS):
         res = tlc.run('Raptor', 'MC', 'MC.cfg', workers=8, timeout=900,
                       extra_files=mc_files(reqs))
         chk.add_tlc(res, 'exhaustive:' + name)
         if not res.ok:
             raise Machinery('design model Raptor violates %s in scenario %s (intended design '
                             'must hold):\n%s' % (res.violated, name, res.trace[:3000]))
-    for name, scen in ([MPI_LIGHT, MPI_REFUSE] if quick
+    res = tlc.run('Raptor', 'MCM', 'MCM.cfg', workers=8, timeout=900,
+                  extra_files=mpi_files(MPI_FINE[1], devs=['Fine']))
+    chk.add_tlc(res, 'exhaustive:mpi:fine')
+    if not res.ok:
+        raise Machinery('design model RaptorMPI (Fine) violates %s:\n%s'
+                        % (res.violated, res.trace[:3000]))
+    for name, scen in ([] if quick
                        else MPI_SCENARIOS + [MPI_SIG, MPI_REFUSE, MPI_SEND]):
         res = tlc.run('Raptor', 'MCM', 'MCM.cfg', workers=8, timeout=900,
                       extra_files=mpi_files(scen))
@@ -633,10 +734,12 @@ def run(chk, tier, seed):
                    ('DevAllocBusy', MPI_SCENARIOS[0][1], ('InvNoShare',)),
                    ('DevNoDealloc', MPI_SCENARIOS[0][1], ('InvOccMatches', 'InvAllBack')),
                    ('DevNoDeallocOnSendFail', MPI_SEND[1], ('InvOccMatches', 'InvAllBack', 'deadlock')),
-                   ('DevMissingIsDone', MPI_REFUSE[1], ('InvTarget',))]
+                   ('DevMissingIsDone', MPI_REFUSE[1], ('InvTarget',)),
+                   ('DevCheckOutsideLock', MPI_FINE[1], ('deadlock',))]
         for dev, scen, invs in mexpect:
             res = tlc.run('Raptor', 'MCM', 'MCM.cfg', workers=8, timeout=900,
-                          extra_files=mpi_files(scen, devs=[dev]))
+                          extra_files=mpi_files(scen, devs=[dev] + (
+                              ['Fine'] if dev == 'DevCheckOutsideLock' else [])))
             chk.add_tlc(res, 'deviation:mpi:' + dev)
             if res.ok or res.violated not in invs:
                 raise Machinery('deviation %s not detected by the MPI model (got %s)'
@@ -650,15 +753,14 @@ def run(chk, tier, seed):
         inputs.append(inp)
 
     # ---- 3. TLC behaviours -> schedules for the real classes -------------------------
-    nsim = 25 if quick else 200
-    plan = [('base', n, r) for n, r in
-            ([SCENARIOS[0], rng.choice(SCENARIOS[1:])] if quick else SCENARIOS)]
+    nsim = 25 if quick else 150
+    plan = [('base', n, r) for n, r in ([] if quick else SCENARIOS)]
     for i in range(0 if quick else 6):
         plan.append(('base', 'rand%d' % i, random_reqs(rng, 4, 'base')))
     # schedules in which the result thread meets a request whose pid is not
     # registered yet come from the model with DevStartOutsideLock (the real code
     # takes the steps it can take)
-    for name, reqs in ([SCENARIOS[2]] if quick else SCENARIOS):
+    for name, reqs in ([rng.choice(SCENARIOS)] if quick else SCENARIOS):
         plan.append(('race', name, reqs))
     for fam, name, reqs in plan:
         dump = tlc.scratch('rpsim_')
@@ -674,26 +776,29 @@ def run(chk, tier, seed):
                 ws, ss = scripts_from_behaviour(f, race=fam == 'race')
                 add({'family': 'base', 'kind': 'script', 'scenario': name, 'reqs': reqs,
                      'script': ws})
-                if fam == 'race':
+                if fam == 'race' and not quick:
                     continue
                 add({'family': 'sched', 'kind': 'sched-script', 'scenario': name,
                      'info': info, 'script': ss})
         finally:
             shutil.rmtree(dump, ignore_errors=True)
-    for name, scen in ([rng.choice([MPI_SCENARIOS[1], MPI_REFUSE])] if quick
-                       else MPI_SCENARIOS * 2 + [MPI_SIG] * 2 + [MPI_REFUSE, MPI_SEND]):
+    for name, scen in ([rng.choice([MPI_SCENARIOS[1], MPI_REFUSE, MPI_FINE])] if quick
+                       else MPI_SCENARIOS * 2 + [MPI_SIG] * 2 + [MPI_REFUSE, MPI_SEND, MPI_FINE]):
         dump = tlc.scratch('rpsim_')
+        fine = name == 'fine'
         try:
             res = tlc.run('Raptor', 'MCM', 'MCM.cfg', workers=1, timeout=300,
-                          simulate='num=%d' % (2 * nsim), depth=80, seed=rng.randrange(10 ** 6),
-                          dump_dir=dump, extra_files=mpi_files(scen, invariants=['TypeOK']))
+                          simulate='num=%d' % (nsim if fine else 2 * nsim), depth=120 if fine else 80,
+                          seed=rng.randrange(10 ** 6), dump_dir=dump,
+                          extra_files=mpi_files(scen, invariants=['TypeOK'],
+                                                devs=['Fine'] if fine else []))
             chk.add_tlc(res, 'simulate:mpi:' + name)
             for f in sorted(glob.glob(os.path.join(dump, 'tr_*'))):
                 reqs, script = mpi_from_behaviour(f, scen)
                 sig = any('sig' in r['rk'] for r in reqs.values())
                 snd = any(r['pf'] >= 0 for r in reqs.values())
                 add({'family': 'mpi-sendfail' if snd else 'mpi-sig' if sig else 'mpi',
-                     'kind': 'mpi-script',
+                     'kind': 'mpi-script', 'fine': fine,
                      'scenario': name, 'reqs': reqs, 'script': script})
         finally:
             shutil.rmtree(dump, ignore_errors=True)
@@ -702,9 +807,12 @@ def run(chk, tier, seed):
     scheds = explore_dispatch(add)
     chk.notes.append('dispatch parent/child: %d interleavings explored on the real code'
                      % len(scheds))
-    n = explore_start(add, 1 if quick else 3)
+    n = explore_alloc(add, 1 if quick else None)
+    chk.notes.append('MPI rank allocator: %d interleavings of _alloc / _dealloc explored on the '
+                     'real code' % n)
+    n = explore_start(add, 1 if quick else 2)
     chk.notes.append('request start / result thread: %d interleavings (preemption bound %d) '
-                     'explored on the real code' % (n, 1 if quick else 3))
+                     'explored on the real code' % (n, 1 if quick else 2))
 
     # ---- 5. seeded random schedules, fixed schedules ---------------------------------
     # a rank killed by a signal (the other rank succeeds), both arrival orders
@@ -735,7 +843,7 @@ def run(chk, tier, seed):
                 [('proc', 'tenv'), ('shell', 'probe'), ('shell', 'tenv'), ('proc', 'probe'),
                  ('proc', 'ret'), ('shell', 'probe')]):
         add({'family': 'base', 'kind': 'chain', 'calls': seq})
-    for i in range(110 if quick else 2000):
+    for i in range(110 if quick else 1500):
         add({'family': 'base', 'kind': 'random', 'seed': rng.randrange(10 ** 9),
              'reqs': random_reqs(rng, rng.randint(2, 6), 'base')})
     for i in range(60 if quick else 1000):
